@@ -101,7 +101,10 @@ def _case(draw):
         # third method of the same trigger that may be queued; the downstream method runs once per change it is told of
         case["fanout"] = {"fan_queued": draw(st.booleans()), "log_queued": draw(st.booleans()), "nassign": draw(st.integers(1, 3)),
                           "route": draw(st.sampled_from(["attr", "update", "batch"])), "log_first": draw(st.booleans()),
-                          "rounds": draw(st.integers(1, 2))}
+                          "rounds": draw(st.integers(1, 2)),
+                          # afterwards a is announced again with param.trigger: the methods depending on a run, what they
+                          # assign is what is there already - no change for the downstream method
+                          "then_trigger": draw(st.booleans())}
     return case
 
 
@@ -432,6 +435,16 @@ def _fanout_scenario(res, c):
                      f"fanout {c!r}, round {r}: the method depending on {names!r} ran {len(tot)}x, expected {want}x: {calls!r}")
         elif tot and tot[-1][1:] != (o.b, o.c, o.d):
             res.fail("C06.stale_values", f"fanout {c!r}, round {r}: the last call saw {tot[-1]!r}, the values are {(o.b, o.c, o.d)!r}")
+    if c.get("then_trigger") and not res.violations:
+        del calls[:]
+        o.param.trigger("a")
+        tot = [x for x in calls if isinstance(x, tuple)]
+        res.label("fanout:then_trigger")
+        if calls.count("fan_out") != 1 or calls.count("log") != 1:
+            res.fail("C06.missed_call", f"fanout {c!r}: param.trigger('a') ran the methods depending on a {calls!r}")
+        elif tot:
+            res.fail("C06.spurious_call", f"fanout {c!r}: param.trigger('a') made a method re-assign the values {names!r} already "
+                                          f"have; the method depending on them ran {len(tot)}x although none of them changed: {calls!r}")
 
 
 def _region_value_and_slot(case, v):
